@@ -1,7 +1,10 @@
 """C29 - process-based sync groups share device variables.
 
 For every configuration (1..3 device instances of deterministic device classes
-with 1..3 ``DeviceVar`` declarations over the formats B H I Q b h i q ? x) a
+with 1..3 ``DeviceVar`` declarations over the formats B H I Q b h i q ? x;
+both kinds of declaration: ``DeviceVar(fmt)`` and, for all classes of up to
+two variables with every non-empty pattern, ``DeviceVar(fmt, write=True)``
+- "written to by the user", a flag the unchanged tree only stores) a
 real ``ProcessSyncGroup(ec, devices)`` is constructed (real 'spawn'-context
 shared array; ``start()`` is not called, it needs SCHED_RR and a NIC).
 
@@ -9,14 +12,29 @@ shared array; ``start()`` is not called, it needs SCHED_RR and a NIC).
     black-box (clear the array, write a probe without zero bytes through the
     descriptor, look which bytes changed); they must be exactly as many as the
     format needs and disjoint between variables; then all variables are
-    written and read back for all boundary values.
+    written and read back for all boundary values.  Rejected writes: with
+    every variable holding a value without zero bytes, every value of
+    ``K.BAD[fmt]`` (out of range on either side, wrong type, wrong number of
+    members, for multi-member formats also wrong in a later member only) is
+    written to every variable: the write must raise (whatever exception;
+    the unchanged tree raises struct.error, for 'x' also TypeError,
+    ValueError, OverflowError from the scaling) and ALL variables must read
+    as before; a bad value accepted silently must at least read back equal.
 (b) cross-process: the sync groups of a batch are pickled into a really
     spawned child (``sg.ctx.Process``; the same pickling that
     ``ProcessSyncGroup.start()`` does for ``target=self.subprocess_run``: the
     whole group incl. devices and shared arrays); values written in the parent
     before and after the spawn must be read in the child, values written in
     the child must be read in the parent, and with parent and child writing
-    alternate variables both must see all of them.
+    alternate variables both must see all of them.  Then a write history
+    over two values a, b per variable (``HISTORY``: A-B-A across the
+    processes from either side, rewrites of the same value by the last
+    writer and by the other process), both processes reading after every
+    write; then rejected writes in the parent and in the child, after which
+    both processes must read the values written before.
+Histories before the group exists: "preset", "regroup", and "rewrite" =
+the devices were in another ProcessSyncGroup and were written there, the same
+values are written again first thing in the new group.
 """
 from mc import core, c29_classes as K
 
@@ -28,14 +46,27 @@ import os
 
 PROP = "C29"
 LEVEL = "model_checking"
-RULE = ("every configuration (list of device classes) of the stated families "
-        "is built as a real ProcessSyncGroup, checked in-process (ownership "
-        "of bytes, round trip of all boundary values) and in a really spawned "
-        "child; non-trivial = at least one device variable could be "
-        "accessed; distinct = distinct configuration")
+RULE = ("every configuration (list of device classes, DeviceVar(fmt) and "
+        "DeviceVar(fmt, write=True) declarations, optionally with a history "
+        "before the group exists) of the stated families is built as a real "
+        "ProcessSyncGroup, checked in-process (ownership of bytes, round "
+        "trip of all boundary values, every rejected value for every "
+        "variable) and in a really spawned child (round trips, a fixed "
+        "write history with A-B-A across the processes and rewrites, "
+        "rejected writes on either side); non-trivial = at least one device "
+        "variable could be accessed; distinct = distinct configuration")
 
 KF = "C29-devicevar-bound-to-fast-group"
-BATCH = 50
+BATCH = 80
+VARIANTS = ("preset", "regroup", "rewrite")
+# who writes which of the two history values, in this order; after every
+# write both processes read.  Contains, for both processes: A-B-A across the
+# processes (P a, C b, P a / C b, P a, C b), a value rewritten by the process
+# that wrote it last, a value written that is already there, and a change of
+# value by the process that wrote last
+HISTORY = (("P", K.HIST_A), ("C", K.HIST_B), ("P", K.HIST_A),
+           ("C", K.HIST_B), ("C", K.HIST_B), ("P", K.HIST_B),
+           ("P", K.HIST_A), ("C", K.HIST_A), ("C", K.HIST_B))
 TIMEOUT = 120
 
 _ARRAYS = {}
@@ -68,8 +99,11 @@ class Config:
         # history before the group exists: "preset" = plain values were
         # assigned to the device variables while the devices were in no
         # group; "regroup" = the devices were in another group before
+        # (without values); "rewrite" = regroup, with values written while
+        # the devices were in the other group and the SAME values written
+        # again in the new one
         self.variant = None
-        if names and names[0] in ("preset", "regroup"):
+        if names and names[0] in VARIANTS:
             self.variant, names = names[0], names[1:]
         self.names = list(names)
         self.extra = extra
@@ -80,6 +114,9 @@ class Config:
         self.sg = None
         self.accessible = False
         self.all_keyerror = False
+        self.rejections = set()
+        self.nrejected = 0
+        self.history_failed = False
 
     def bad(self, cat, expected, observed, kf=None):
         if not any(v[0] == cat for v in self.viol):
@@ -94,9 +131,11 @@ class Config:
                     for i, f in enumerate(d.FMTS):
                         if len(f) == 1 and f not in "?x":
                             setattr(d, "v%d" % i, 2 + 2 * i)
-            elif self.variant == "regroup":
+            elif self.variant in ("regroup", "rewrite"):
                 other = [K.CLASSES[self.names[-1]]()] + devs[::-1]
-                ProcessSyncGroup(ec, other)
+                g0 = ProcessSyncGroup(ec, other)
+                if self.variant == "rewrite":
+                    K.write_all(g0, K.HIST_A, self.extra, None, True)
                 _ARRAYS.clear()
             self.sg = ProcessSyncGroup(ec, devs)
         except Exception as e:
@@ -198,17 +237,72 @@ class Config:
                 out.append(K.value_for(fmt, k + n, self.extra))
         return out
 
-    def compare(self, cat, exp, obs):
+    def compare(self, cat, exp, obs, attempt=None):
         """compare full value vectors; device variables only if accessible"""
         lo = 0 if self.accessible else len(self.vars) - 1
         for n in range(lo, len(self.vars)):
             if not same(exp[n], obs[n]):
                 owner, name, fmt = self.vars[n]
-                self.bad(cat, dict(var=[self.owner_index(owner), name, fmt],
-                                   value=exp[n]),
-                         dict(value=obs[n]))
+                e = dict(var=[self.owner_index(owner), name, fmt],
+                         value=exp[n])
+                if attempt is not None:
+                    e["after_the_rejected_write"] = attempt
+                self.bad(cat, e, dict(value=obs[n]))
                 return False
         return True
+
+    def flat(self, k):
+        return [K.flat_value(fmt, k, self.extra) for _, _, fmt in self.vars]
+
+    def check_rewrite(self):
+        """history "rewrite": the values the devices were given in their
+        former group are written again in this one, first thing"""
+        if self.variant != "rewrite":
+            return
+        for k in (K.HIST_A, K.HIST_A, K.HIST_B, K.HIST_A):
+            w = K.write_all(self.sg, k, self.extra, None, True)
+            obs = K.read_all(self.sg)
+            if any(w) or any(is_exc(x) for x in obs):
+                return      # no access at all: check_access reports it
+            exp = self.flat(k)
+            for n, (owner, name, fmt) in enumerate(self.vars):
+                if not same(exp[n], obs[n]):
+                    self.bad("in-process: value written again after the "
+                             "devices changed their group is not read back",
+                             dict(var=[self.owner_index(owner), name, fmt],
+                                  value=exp[n]), dict(value=obs[n]))
+                    return
+
+    def check_rejected(self):
+        """writes the format must reject: all of BAD for every variable;
+        all variables hold values without zero bytes before"""
+        if not self.accessible:
+            return
+        probe = self.flat("probe")
+        if any(K.write_all(self.sg, "probe", self.extra, None, True)):
+            raise core.Internal("probe values cannot be written")
+        for n, (owner, name, fmt) in enumerate(self.vars):
+            for badv in K.BAD[fmt]:
+                try:
+                    setattr(owner, name, badv)
+                    exc = None
+                except Exception as e:
+                    exc = e
+                self.rejections.add(type(exc).__name__)
+                after = K.read_all(self.sg)
+                where = dict(var=[self.owner_index(owner), name, fmt],
+                             value=repr(badv))
+                if exc is None:
+                    self.bad("a value that does not fit the format was "
+                             "written without an error and is read back as "
+                             "another value", where, dict(value=after[n]))
+                    K.write_all(self.sg, "probe", self.extra, None, True)
+                elif not self.compare(
+                        "in-process: a rejected write (%s) changed a "
+                        "variable" % type(exc).__name__, probe, after,
+                        attempt=where):
+                    K.write_all(self.sg, "probe", self.extra, None, True)
+        self.nrejected = sum(len(K.BAD[f]) for _, _, f in self.vars)
 
     def check_roundtrip(self):
         for k in range(2 * K.NVALUES):
@@ -247,23 +341,13 @@ def spawn_batch(cfgs):
     return live, parent, proc
 
 
-def talk_batch(handle):
-    """the cross-process protocol; returns the number of exchanges"""
-    if handle is None:
-        return 0
+def protocol(handle):
+    """the cross-process protocol of one batch, as a generator: yields the
+    command for the child (None: only wait for its message) and is sent the
+    child's answer; returns the number of exchanges"""
     live, parent, proc = handle
-
-    def ask(*cmd):
-        parent.send(cmd)
-        if not parent.poll(TIMEOUT):
-            raise core.Internal("spawned child does not answer")
-        return parent.recv()
-
-    try:
-        if not parent.poll(TIMEOUT):
-            raise core.Internal("spawned child did not start (exit code %r)"
-                                % proc.exitcode)
-        hello = parent.recv()
+    if True:
+        hello = yield None
         here = os.path.dirname(os.path.abspath(ebpfcat.__file__))
         if hello[0] != "hello" or hello[1] != here:
             raise core.Internal("child imported ebpfcat from %r, parent "
@@ -271,20 +355,20 @@ def talk_batch(handle):
         if hello[2] == os.getpid():
             raise core.Internal("child is not a separate process")
         # 1. written in the parent before the spawn, read in the child
-        got = ask("read")
+        got = yield ("read",)
         for c, g in zip(live, got):
             c.compare("parent -> child: value written before the spawn is "
                       "not what the child reads", c.expected(100), g)
         # 2. written in the parent while the child lives
         for c in live:
             K.write_all(c.sg, 201, c.extra)
-        got = ask("read")
+        got = yield ("read",)
         for c, g in zip(live, got):
             c.compare("parent -> child: value written in the parent is not "
                       "what the child reads", c.expected(201), g)
         # 3. written in the child, read in the parent
         for k in (302, 303):
-            ask("write", k, live[0].extra, None)
+            yield ("write", k, live[0].extra, None)
             for c in live:
                 c.compare("child -> parent: value written in the child is "
                           "not what the parent reads", c.expected(k),
@@ -293,25 +377,100 @@ def talk_batch(handle):
         before = {id(c): c.expected(303) for c in live}
         for c in live:
             K.write_all(c.sg, 404, c.extra, 0)
-        ask("write", 505, live[0].extra, 1)
-        got = ask("read")
+        yield ("write", 505, live[0].extra, 1)
+        got = yield ("read",)
         for c, g in zip(live, got):
             exp = c.expected(505, 1, c.expected(404, 0, before[id(c)]))
             c.compare("alternating writers: child does not see all values",
                       exp, g)
             c.compare("alternating writers: parent does not see all values",
                       exp, K.read_all(c.sg))
-        if ask("quit") != "bye":
+        # 5. value histories: A-B-A across the processes, rewrites
+        acc = [c for c in live if c.accessible]
+        story = []
+        for who, k in HISTORY:
+            story.append("%s writes %s" % (who, "ab"[k == K.HIST_B]))
+            if who == "P":
+                for c in live:
+                    K.write_all(c.sg, k, c.extra, None, True)
+            else:
+                yield ("writeflat", k, live[0].extra)
+            got = yield ("read",)
+            for c, g in zip(live, got):
+                # (the first step of the history that fails is reported)
+                for side, obs in (("child", g), ("parent", K.read_all(c.sg))):
+                    if not c.history_failed and not c.compare(
+                            "history (P = parent, C = child; %s): %s does "
+                            "not read the value written last"
+                            % (", ".join(story), side), c.flat(k), obs):
+                        c.history_failed = True
+        # 6. rejected writes in the parent, 7. in the child: both go on
+        # reading the values written before
+        for c in live:
+            K.write_all(c.sg, "probe", c.extra, None, True)
+        for who, shift in (("parent", 0), ("child", 3)):
+            if who == "parent":
+                outcome = [K.reject_all(c.sg, shift) for c in live]
+            else:
+                outcome = yield ("reject", shift,)
+            got = yield ("read",)
+            for c, o, g in zip(acc, [o for c, o in zip(live, outcome)
+                                     if c.accessible],
+                               [g for c, g in zip(live, got)
+                                if c.accessible]):
+                if not all(o):
+                    n = [bool(x) for x in o].index(False)
+                    owner, name, fmt = c.vars[n]
+                    c.bad("a value that does not fit the format was "
+                          "written without an error (%s)" % who,
+                          dict(var=[c.owner_index(owner), name, fmt],
+                               value=repr(K.BAD[fmt][(n + shift)
+                                                     % len(K.BAD[fmt])])),
+                          "no exception")
+                    continue
+                c.rejections |= {x[1] for x in o}
+                for side, obs in (("child", g), ("parent", K.read_all(c.sg))):
+                    c.compare("after writes rejected in the %s the %s does "
+                              "not read the values written before"
+                              % (who, side), c.flat("probe"), obs)
+        if (yield ("quit",)) != "bye":
             raise core.Internal("child protocol error")
-        proc.join(TIMEOUT)
-        if proc.exitcode != 0:
-            raise core.Internal("child exit code %r" % proc.exitcode)
-    finally:
-        parent.close()
-        if proc.is_alive():
-            proc.kill()
-            proc.join()
-    return 6 * len(live)
+    return (6 + 2 * len(HISTORY) + 4) * len(live)
+
+
+def talk_wave(handles):
+    """run the protocols of all batches of a wave in lock-step, so that the
+    children work at the same time; returns the number of exchanges"""
+    total = 0
+    gens = []
+    for h in handles:
+        if h is not None:
+            g = protocol(h)
+            gens.append((g, h, next(g)))
+    while gens:
+        for g, h, cmd in gens:
+            if cmd is not None:
+                h[1].send(cmd)
+        nxt = []
+        for g, h, cmd in gens:
+            if not h[1].poll(TIMEOUT):
+                raise core.Internal(
+                    "spawned child does not answer %r (exit code %r)"
+                    % (cmd, h[2].exitcode))
+            try:
+                ans = h[1].recv()
+            except EOFError:
+                raise core.Internal("spawned child died (exit code %r)"
+                                    % h[2].exitcode)
+            try:
+                nxt.append((g, h, g.send(ans)))
+            except StopIteration as e:
+                total += e.value
+                h[2].join(TIMEOUT)
+                if h[2].exitcode != 0:
+                    raise core.Internal("child exit code %r" % h[2].exitcode)
+        gens = nxt
+    return total
 
 
 # ------------------------------------------------------------ configurations
@@ -324,13 +483,15 @@ def configurations(ctx):
     def add(*idx):
         out.append(tuple(names[i % n] for i in idx))
 
-    small = [i for i, nm in enumerate(names)
+    plain = K.NPLAIN + K.NSPECIAL       # classes without write=True first
+    small = [i for i, nm in enumerate(names[:plain])
              if len(K.CLASSES[nm].FMTS) <= 2 or nm.startswith("Dev_sub")
              or nm.startswith("Dev_base")]
+    wsmall = list(range(plain, n))      # declared with write=True
     if ctx.quick:
-        big = [i for i in range(n) if i not in small]
+        big = [i for i in range(plain) if i not in small]
         pick = small + big[ctx.seed % 8::8]
-        for i in pick:
+        for i in pick + wsmall:
             add(i)
             add(i, i)
         for i in small:
@@ -339,6 +500,9 @@ def configurations(ctx):
         for i in small[::3]:
             add(i, i + 31, i + 152)
             add(i + 5, i, i)
+        for i in wsmall[ctx.seed % 3::3]:
+            add(i, i + 1)
+            add(i, i - plain, i)
     else:
         for i in range(n):
             add(i)
@@ -352,9 +516,10 @@ def configurations(ctx):
             else:
                 add(i + 5, i, i)
     # the same with a history (see Config)
-    hist = small if not ctx.quick else small[::2]
+    hist = small + wsmall if not ctx.quick else \
+        small[::2] + wsmall[ctx.seed % 4::4]
     for i in hist:
-        for v in ("preset", "regroup"):
+        for v in VARIANTS:
             out.append((v, names[i % n], names[(i + 1) % n]))
             if not ctx.quick:
                 out.append((v, names[i % n]))
@@ -379,10 +544,13 @@ def run_configs(ctx, confs, extra, res):
             for c in batch:
                 if not c.build():
                     continue
+                c.check_rewrite()
                 c.check_access()
                 c.check_layout()
                 c.check_roundtrip()
-                res.count("transitions", 2 * K.NVALUES * len(c.vars))
+                c.check_rejected()
+                res.count("transitions", 2 * K.NVALUES * len(c.vars)
+                          + c.nrejected)
             batches.append(batch)
         # children are started in waves (their start-up dominates), then
         # served one after the other; results do not depend on the overlap
@@ -393,13 +561,14 @@ def run_configs(ctx, confs, extra, res):
                 for batch in batches[w:w + wave]:
                     handles.append(spawn_batch(batch))
                     res.count("spawns")
-                for h in handles:
-                    res.count("transitions", talk_batch(h))
+                res.count("transitions", talk_wave(handles))
             finally:
                 for h in handles:
-                    if h is not None and h[2].is_alive():
-                        h[2].kill()
-                        h[2].join()
+                    if h is not None:
+                        h[1].close()
+                        if h[2].is_alive():
+                            h[2].kill()
+                            h[2].join()
         for batch in batches:
             for c in batch:
                 res.count("evaluations")
@@ -407,7 +576,13 @@ def run_configs(ctx, confs, extra, res):
                 if c.accessible:
                     res.nontrivial.add(core.digest(c.case))
                 res.outcomes.add((c.variant, len(c.names), len(set(c.names)),
-                                  c.accessible, tuple(v[0] for v in c.viol)))
+                                  c.accessible, tuple(sorted(c.rejections)),
+                                  tuple(v[0] for v in c.viol)))
+                res.count("rejected_writes", c.nrejected)
+                if any(w for n in c.names
+                       for w in K.CLASSES[n].__dict__.get("WRITTEN", ())) \
+                        or any("_w" in n for n in c.names):
+                    res.count("configurations_with_write_variables")
                 for cat, exp, obs, kf in c.viol:
                     res.violation(c.case, exp, obs, kf=kf,
                                   sig=core.digest([cat]), note=cat)
@@ -436,8 +611,24 @@ def selftest():
             raw = struct.pack(fmt, K.PROBE[fmt])
         if 0 in raw:
             raise core.Internal("probe for %r has a zero byte" % fmt)
-    if len(K.ORDER) != 285 + 9 or len(set(K.ORDER)) != len(K.ORDER):
+    if len(K.ORDER) != 285 + 9 + 10 + 3 * 55 + 3 \
+            or len(set(K.ORDER)) != len(K.ORDER):
         raise core.Internal("class table incomplete")
+    # the values called "bad" do not fit, by the rules of struct alone
+    import struct
+    for fmt, bads in K.BAD.items():
+        for v in bads:
+            try:
+                if fmt == "x":
+                    struct.pack("q", round(v * 100000))
+                else:
+                    struct.pack(fmt, *(v if isinstance(v, tuple) else (v,)))
+            except (struct.error, TypeError, ValueError, OverflowError):
+                continue
+            raise core.Internal("%r fits format %r" % (v, fmt))
+    for fmt in K.SIZES:
+        if same(K.flat_value(fmt, K.HIST_A), K.flat_value(fmt, K.HIST_B)):
+            raise core.Internal("history values of %r are equal" % fmt)
 
 
 def run(ctx):
@@ -447,12 +638,25 @@ def run(ctx):
     run_configs(ctx, confs, extra, res)
     res.cov["states"] = len(confs)
     res.cov["alphabet"] = dict(
-        formats=K.FORMATS, classes=len(K.ORDER), configurations=len(confs),
-        instances="1..3", values_per_format=K.NVALUES, batch=BATCH)
+        formats=K.FORMATS, classes=len(K.ORDER),
+        classes_with_write_variables=len(K.WORDER),
+        configurations=len(confs), instances="1..3",
+        values_per_format=K.NVALUES, batch=BATCH,
+        histories_before_the_group=list(VARIANTS),
+        write_history=["%s:%s" % (w, "ab"[k == K.HIST_B])
+                       for w, k in HISTORY],
+        rejected_values_per_format={f: len(v) for f, v in K.BAD.items()})
     res.cov["bound_completed"] = (
-        "all declaration multisets up to size 3; quick: all of size <= 2 "
-        "and every 8th of size 3" if ctx.quick else
-        "all declaration multisets up to size 3 x 7 instance patterns")
+        "all declaration multisets up to size 3, those up to size 2 also "
+        "with every pattern of write=True; quick: all of size <= 2 and "
+        "every 8th of size 3" if ctx.quick else
+        "all declaration multisets up to size 3 (up to size 2 also with "
+        "every pattern of write=True) x 7 instance patterns")
+    if not res.violations and not (
+            res.cov.get("rejected_writes")
+            and res.cov.get("configurations_with_write_variables")):
+        raise core.Internal("vacuous: no rejected writes / no write=True "
+                            "variables")
     for c in (confs[0], confs[len(confs) // 2], confs[-1]):
         res.sample(dict(devices=list(c)))
     res.assumptions += [
@@ -465,6 +669,15 @@ def run(ctx):
         "formats are native ones (struct without prefix): 'l'/'L' are 8 "
         "bytes here, 'hI'/'BI' contain padding, which belongs to the "
         "variable's slot",
+        "a write that raises is a rejected write, whatever the exception; "
+        "the statement then demands nothing of the written value, but 'read "
+        "unchanged' still holds for what was written before: the variable "
+        "and all others read as before, in both processes.  Only values are "
+        "compared, padding bytes may change.  '?' accepts every object, only "
+        "a wrong number of members is rejected",
+        "write histories use two values per variable that differ for every "
+        "format; parent and child never write at the same time (reads "
+        "follow the acknowledged write)",
     ]
     return res
 
